@@ -13,8 +13,20 @@ class SPEC:
             "an oversize template (20000 fields) followed by data for it, set id different from the records' template id, ill-typed values "
             "(IPv6/odd-length address in an IPv4 element, odd-length address in an IPv6 element, MAC that is not 6 bytes, fixed-length "
             "octet array of the wrong length) - followed by further valid sends, all of which are parsed by the independent decoder. "
+            "Write outcomes (`exp failnext err|refused|short<k>`: the next Write on the connection returns an error / ECONNREFUSED as a "
+            "connected UDP socket reports it / k bytes and no error): (i) before the send of a NEW template, followed by data for that "
+            "template - which must be refused: a template counts as sent only if its SendSet reported success -, by a re-send of the "
+            "template that succeeds and by data that is then accepted, sometimes with a refused send (outcome stays pending), `exp tids` "
+            "or a refresh pass in between; (ii) before data sends and re-sent templates (error, at most the k bytes written, later sends "
+            "well-formed; short70000 = the whole message goes out, success). The sequence numbers after a failed data send are C08's "
+            "business (verdicts `fails c08:sequence` are filtered). JSON mode (`exp new <dom> json`, SendJSONRecord): the mixed sessions "
+            "with one invalid kind of unknown template id / wrong field count / set id different from the records' template id / Undefined "
+            "set type; a send is observed as `okj <writes>` / `err -` / `errj <writes>` (the JSON text is not modelled or judged): a set "
+            "C09 wants refused must write nothing, exactly as in IPFIX mode (Spec.Exp.refusalReason); elements without a JSON case "
+            "(octetArray) and non-finite floats are modelled as an error after the writes of the records before. "
             "Non-trivial = at least one rejected and one accepted send; distinct by hash.")
-    assumptions = []
+    assumptions = ["JSON mode: the rendered JSON text is neither modelled nor judged - only the decisions of SendSet (error or not, number of Writes, "
+                   "templates recorded); a failing Write of the in-memory connection writes nothing (WriteOutcome.fail)"]
     trusted = []
 
 
@@ -41,6 +53,14 @@ def run(ctx):
         cases.append(Case(ops, "oversize", True, True))
     for _ in range(3 if ctx.tier == "quick" else 40):
         cases.append(X.mixed_session(rng, sup, "oversize-template"))
+    # Write outcomes: a template whose Write failed was never sent; failing data Writes
+    for _ in range(350 if ctx.tier == "quick" else 6000):
+        cases.append(X.failnext_template_session(rng, sup))
+    for _ in range(250 if ctx.tier == "quick" else 4000):
+        cases.append(X.failnext_data_session(rng, sup))
+    # JSON mode: the refusals are the same
+    for k in range(500 if ctx.tier == "quick" else 8000):
+        cases.append(X.mixed_session(rng, sup, X.INVALID_JSON[k % len(X.INVALID_JSON)], json=True))
     res = run_simple(ctx, cases, "C09", chk_filter=lambda op: True, stateful_chk=True, signature=signature,
                      verdict_filter=lambda v: "holds" if v.startswith("fails c08:sequence") else v)
     res["evaluations"] = sum(1 for c in cases for o in c.ops if o.startswith("exp send"))
